@@ -739,19 +739,33 @@ func renderUses(d drw, w *World, m *Meta, pd *PkgDecl, fileName string, nfuncs i
 	s := &src{}
 	s.ln("package %s", pd.Name)
 	s.ln("")
+	fileImports := pd.Imports
+	if fileName == "more.go" && len(pd.Imports) >= 2 && d.chance(2, 3) {
+		// this file imports only some of the package's imports: a type of a package that
+		// another file imports can still arrive here through a re-exporting getter
+		fileImports = nil
+		for _, j := range pd.Imports {
+			if d.chance(1, 2) {
+				fileImports = append(fileImports, j)
+			}
+		}
+		if len(fileImports) == 0 {
+			fileImports = []int{pd.Imports[len(pd.Imports)-1]}
+		}
+	}
 	if pd.BlankImport >= 0 && fileName == "use.go" {
 		s.ln("import _ %q // imported for its side effects only", m.Decls[pd.BlankImport].Path)
 		s.ln("")
 	}
-	importLinesStd(s, m, pd.Imports, pd.UnsafeFirst)
+	importLinesStd(s, m, fileImports, pd.UnsafeFirst)
 	if pd.UnsafeFirst {
 		s.ln("var _ = unsafe.Sizeof(0)")
 	}
-	for _, j := range pd.Imports {
+	for _, j := range fileImports {
 		s.ln("func anchor%s%s() int { return %s.%s() }", strings.TrimSuffix(strings.ReplaceAll(fileName, ".", "_"), "_go"), m.Decls[j].Qual, m.Decls[j].Qual, m.Decls[j].AnchorName())
 	}
 	s.ln("")
-	targets := append([]int(nil), pd.Imports...)
+	targets := append([]int(nil), fileImports...)
 	if selfUses {
 		targets = append(targets, pd.Index)
 	}
